@@ -1,5 +1,179 @@
-(* Properties_C15.v — C15 (placeholder while the pipeline is brought up). *)
-Require Import SquidV.Bytes SquidV.RangeModel SquidV.RangereplyModel SquidV.RangereplyProofs.
-Theorem C15_placeholder : is_complex [] = false.
-Proof. exact is_complex_nil. Qed.
-Print Assumptions C15_placeholder.
+(* Properties_C15.v — C15: Range responses contain exactly the requested bytes.
+   Statements only; proofs live in RangereplyProofs.v.  Model: RangereplyModel.v (packRange & co.), composed with
+   C28's parser/canonicaliser (RangeModel.v; spec side header_specs / wants / canon_of from RangeProofs.v).
+   Specification side (RangereplyProofs.v):
+     chain clen lo cs       cs is ascending from lo, disjoint, every spec non-empty and inside [0,clen)
+     parts_body e obj cs    concatenation over cs of (part header when multipart) ++ obj[offset, offset+length)
+     expected_body e obj cs parts_body ++ (closing delimiter when multipart)
+     first_ok obj co data0  the buffer that came with the headers is empty, or precedes the first wanted byte
+                            (then its content is arbitrary), or is a true prefix of the body
+     n_chunks               length of the environment's list of store-read sizes (every read returns 1..4096 bytes) *)
+Require Import SquidV.Bytes SquidV.TokModel SquidV.HopModel SquidV.RangeModel SquidV.RangeProofs.
+Require Import SquidV.RangereplyModel SquidV.RangereplyProofs.
+Local Open Scope Z_scope.
+
+(* --- the canonical non-complex lists are exactly the chains --- *)
+Theorem C15_canonical_not_complex_is_chain : forall clen cs lo,
+  Forall (within clen) cs -> is_complex_from lo cs = false -> chain clen lo cs.
+Proof. exact chain_of_canon. Qed.
+Print Assumptions C15_canonical_not_complex_is_chain.
+
+Theorem C15_chain_is_canonical_not_complex : forall clen cs lo, chain clen lo cs -> 0 <= lo ->
+  Forall (within clen) cs /\ is_complex_from lo cs = false.
+Proof. exact canon_of_chain. Qed.
+Print Assumptions C15_chain_is_canonical_not_complex.
+
+(* --- pack_range_exact: every object, every canonical non-complex spec list, every first buffer, every chunking --- *)
+Theorem C15_pack_range_exact : forall e obj co cl r data0 chunks,
+  e_clen e = zlen obj -> single_ok e r -> chain (zlen obj) 0 ((co, cl) :: r) -> first_ok obj co data0 ->
+  cl + sum_len r <= n_chunks chunks ->
+  snd (run_partial e obj ((co, cl) :: r) data0 chunks) = RDone (expected_body e obj ((co, cl) :: r)) false.
+Proof. exact run_partial_exact. Qed.
+Print Assumptions C15_pack_range_exact.
+
+(* the Content-Length buildRangeHeader declares (mRangeCLen / the single spec's length) is that body's size *)
+Theorem C15_declared_content_length_is_body_size : forall e obj co cl r,
+  e_multipart e = (match r with [] => false | _ => true end) -> 0 <= co -> chain (zlen obj) 0 ((co, cl) :: r) ->
+  snd (prep_partial e ((co, cl) :: r)) = zlen (expected_body e obj ((co, cl) :: r)).
+Proof. exact declared_length. Qed.
+Print Assumptions C15_declared_content_length_is_body_size.
+
+(* one store buffer at the wanted offset: what packRange/sendBody emit is the next stretch of the expected body *)
+Theorem C15_one_buffer_emits_next_stretch : forall e obj, e_clen e = zlen obj ->
+  forall r co cl d k,
+    single_ok e r ->
+    0 <= co -> 0 < cl -> co + cl <= zlen obj -> chain (zlen obj) (co + cl) r ->
+    0 < d <= cl -> 1 <= k -> co + cl - d + k <= zlen obj ->
+    exists s2 out s3 fin,
+      send_buffer e (mkIt ((co, cl) :: r) d (co + cl - d) false) (co + cl - d) (rr_slice obj (co + cl - d) k) = (s2, out) /\
+      socket_state e s2 = (s3, fin) /\ it_bad s3 = false /\
+      (if fin then out = remaining e obj (co, cl) r d
+       else exists co' cl' r' d',
+           s3 = mkIt ((co', cl') :: r') d' (co' + cl' - d') false /\ single_ok e r' /\
+           0 <= co' /\ 0 < cl' /\ co' + cl' <= zlen obj /\ chain (zlen obj) (co' + cl') r' /\ 0 < d' <= cl' /\
+           out ++ remaining e obj (co', cl') r' d' = remaining e obj (co, cl) r d /\
+           d' + sum_len r' < d + sum_len r).
+Proof. exact step_ready. Qed.
+Print Assumptions C15_one_buffer_emits_next_stretch.
+
+(* every part's Content-Range text announces exactly the slice the part carries *)
+Theorem C15_content_range_announces_the_slice : forall c clen,
+  0 <= fst c -> 0 < snd c -> fst c + snd c <= clen -> clen <= int64_max ->
+  exists a b l, cont_range_value c clen = bytes_sp ++ a ++ [45]%N ++ b ++ [47]%N ++ l /\
+    pos_value a = Some (fst c) /\ pos_value b = Some (fst c + snd c - 1) /\ pos_value l = Some clen.
+Proof. exact cont_range_value_announces. Qed.
+Print Assumptions C15_content_range_announces_the_slice.
+
+(* --- the decision: buildRangeHeader answers 206 exactly when ... --- *)
+Theorem C15_206_decision : forall b raw cs,
+  build_range_header b raw = VPartial cs <->
+  ( b_have_rep b = true /\ b_status b = 200 /\ b_has_content_range b = false /\
+    0 <= b_content_length b /\ b_content_length b = b_base_content_length b /\
+    (b_is_hit b = true -> b_if_range b <> Some false) /\
+    fst (range_canonize (b_content_length b) raw) = (true, cs) /\
+    is_complex cs = false /\
+    (b_is_hit b = false -> offset_limit_exceeded cs (b_limit b) = false) ).
+Proof. exact build_range_header_partial. Qed.
+Print Assumptions C15_206_decision.
+
+Theorem C15_status_is_200_or_206 : forall i, o_status (reply_run i) = 200 \/ o_status (reply_run i) = 206.
+Proof. exact reply_status. Qed.
+Print Assumptions C15_status_is_200_or_206.
+
+(* --- the whole transaction for a valid Range header: either a 206 whose parts are, in order, exactly the
+       satisfiable requested ranges (canon_of), with exact bytes, Content-Length, Content-Range / Content-Type,
+       or the reply is produced by the no-range path (status 200) --- *)
+Theorem C15_range_reply_exact : forall i value specs,
+  i_range i = Some value -> header_specs value = Some specs ->
+  zlen (i_obj i) <= int64_max -> zlen (i_obj i) <= n_chunks (i_chunks i) ->
+  (exists cs, canon_of (zlen (i_obj i)) specs cs /\ cs <> [] /\ chain (zlen (i_obj i)) 0 cs /\
+      reply_run i = mkOut 206 (zlen (expected_body (reply_env i cs) (i_obj i) cs))
+                          (match cs with [c] => Some (cont_range_value c (zlen (i_obj i))) | _ => None end)
+                          (match cs with [c] => i_ctype i | _ => Some (multipart_ctype (boundary_str (i_key i))) end)
+                          (RDone (expected_body (reply_env i cs) (i_obj i) cs) false))
+  \/ (exists roff, reply_run i = plain_output i roff /\ (roff = 0 \/ roff = lowest_offset 0 (map repr specs))).
+Proof. exact reply_run_spec. Qed.
+Print Assumptions C15_range_reply_exact.
+
+(* 416 is never sent: when nothing is satisfiable the answer is 200 *)
+Theorem C15_unsatisfiable_is_200_never_416 : forall i value specs,
+  i_range i = Some value -> header_specs value = Some specs ->
+  zlen (i_obj i) <= int64_max -> zlen (i_obj i) <= n_chunks (i_chunks i) ->
+  (forall s p, In s specs -> ~ wants (zlen (i_obj i)) s p) ->
+  o_status (reply_run i) = 200.
+Proof. exact reply_unsatisfiable_is_200. Qed.
+Print Assumptions C15_unsatisfiable_is_200_never_416.
+
+(* --- "otherwise the complete representation with 200" --- *)
+(* the no-range stream: whatever came with the headers, then the body from where the byte count says *)
+Theorem C15_plain_stream_shape : forall obj data0 chunks, zlen data0 <= zlen obj -> zlen obj <= n_chunks chunks ->
+  run_plain obj data0 chunks = RDone (data0 ++ rr_slice obj (zlen data0) (zlen obj - zlen data0)) false.
+Proof. exact run_plain_shape. Qed.
+Print Assumptions C15_plain_stream_shape.
+
+Theorem C15_no_or_invalid_range_is_full_200 : forall i,
+  (i_range i = None \/ exists value, i_range i = Some value /\ header_specs value = None) ->
+  zlen (i_obj i) <= n_chunks (i_chunks i) ->
+  reply_run i = mkOut 200 (zlen (i_obj i)) None (i_ctype i) (RDone (i_obj i) false).
+Proof. exact reply_without_usable_range. Qed.
+Print Assumptions C15_no_or_invalid_range_is_full_200.
+
+(* full strength ("every 200 answer to a valid Range carries the whole representation") is FALSE for the code as it is *)
+Theorem C15_fallback_200_is_full_refuted :
+  exists i value specs, i_range i = Some value /\ header_specs value = Some specs /\
+    zlen (i_obj i) <= int64_max /\ zlen (i_obj i) <= n_chunks (i_chunks i) /\
+    o_status (reply_run i) = 200 /\ o_content_length (reply_run i) = zlen (i_obj i) /\
+    o_body (reply_run i) <> RDone (i_obj i) false.
+Proof. exact fallback_200_is_full_refuted. Qed.
+Print Assumptions C15_fallback_200_is_full_refuted.
+
+(* what is missing in the partial statement: the case 0 < lowestOffset(0) < (body bytes that came with the headers),
+   which only disk hits produce; there the body is exactly this: *)
+Theorem C15_fallback_200_cut_first_buffer_shape : forall i roff,
+  0 < roff < first_read_size (i_k0 i) (zlen (i_obj i)) ->
+  zlen (i_obj i) <= n_chunks (i_chunks i) ->
+  let bs := first_read_size (i_k0 i) (zlen (i_obj i)) in
+  o_body (plain_output i roff) =
+  RDone (rr_slice (i_obj i) roff (bs - roff) ++ rr_slice (i_obj i) (bs - roff) (zlen (i_obj i) - (bs - roff))) false.
+Proof. exact plain_output_shape. Qed.
+Print Assumptions C15_fallback_200_cut_first_buffer_shape.
+
+Theorem C15_fallback_200_is_full_partial : forall i value specs,
+  i_range i = Some value -> header_specs value = Some specs ->
+  zlen (i_obj i) <= int64_max -> zlen (i_obj i) <= n_chunks (i_chunks i) ->
+  o_status (reply_run i) = 200 ->
+  i_k0 i = 0%N \/ lowest_offset 0 (map repr specs) = 0 \/
+    first_read_size (i_k0 i) (zlen (i_obj i)) <= lowest_offset 0 (map repr specs) ->
+  reply_run i = mkOut 200 (zlen (i_obj i)) None (i_ctype i) (RDone (i_obj i) false).
+Proof. exact reply_200_full_partial. Qed.
+Print Assumptions C15_fallback_200_is_full_partial.
+
+(* --- the hypotheses are satisfiable; concrete values --- *)
+Definition C15_ex_obj : bytes := [10;11;12;13;14;15;16;17;18;19;20;21]%N.
+Definition C15_ex_env : renv := mkEnv true 12 (Some [116]%N) [66]%N.
+Example C15_ex_chain : chain (zlen C15_ex_obj) 0 [(0, 2); (2, 3); (8, 4)] /\ single_ok C15_ex_env [(2, 3); (8, 4)].
+Proof. split; [cbn; lia|intros H; discriminate H]. Qed.
+Example C15_ex_first_ok : first_ok C15_ex_obj 0 (rr_slice C15_ex_obj 0 5) /\ first_ok C15_ex_obj 3 [99; 98]%N /\ first_ok C15_ex_obj 0 [].
+Proof. repeat split; [right; right; exists 5; split; [cbn; lia|reflexivity]|right; left; lia|left; reflexivity]. Qed.
+Example C15_ex_run :
+  run_partial C15_ex_env C15_ex_obj [(0, 2); (2, 3); (8, 4)] (rr_slice C15_ex_obj 0 5) [1; 2; 4096; 1; 1; 1; 1; 1; 1]%N
+  = (zlen (expected_body C15_ex_env C15_ex_obj [(0, 2); (2, 3); (8, 4)]),
+     RDone (expected_body C15_ex_env C15_ex_obj [(0, 2); (2, 3); (8, 4)]) false).
+Proof. vm_compute. reflexivity. Qed.
+(* "bytes=0-1, 4-, -3" on 12 bytes served from memory: 206 multipart with three parts *)
+Definition C15_ex_input : rinput :=
+  mkIn (Some [98;121;116;101;115;61;48;45;49;44;32;52;45;54;44;45;51]%N) C15_ex_obj (Some [116]%N) [75]%N true 0 None None 0
+       [3; 1; 4096; 7; 7; 7; 7; 7; 7; 7; 7; 7]%N.
+Example C15_ex_header : header_specs [98;121;116;101;115;61;48;45;49;44;32;52;45;54;44;45;51]%N = Some [RRange 0 1; RRange 4 6; RSuffix 3].
+Proof. vm_compute. reflexivity. Qed.
+Example C15_ex_reply : o_status (reply_run C15_ex_input) = 206 /\
+  o_body (reply_run C15_ex_input) = RDone (expected_body (reply_env C15_ex_input [(0, 2); (4, 3); (9, 3)]) C15_ex_obj [(0, 2); (4, 3); (9, 3)]) false.
+Proof. vm_compute. split; reflexivity. Qed.
+Example C15_ex_decision :
+  build_range_header (mkBuild true 200 false 12 12 true None 0) [(0, 2); (4, -1); (-1, 3)] = VIgnore 9 false /\
+  build_range_header (mkBuild true 200 false 12 12 true None 0) [(0, 2); (4, 3); (-1, 3)] = VPartial [(0, 2); (4, 3); (9, 3)] /\
+  build_range_header (mkBuild true 200 false 12 12 false None 0) [(0, 2)] = VIgnore 10 false /\
+  build_range_header (mkBuild true 200 false 12 12 true (Some false) 0) [(0, 2)] = VIgnore 7 false.
+Proof. vm_compute. repeat split; reflexivity. Qed.
+Example C15_ex_within : within 12 (4, 3) /\ 12 <= int64_max.
+Proof. unfold within, int64_max, two63. cbn. lia. Qed.
